@@ -4,7 +4,7 @@ Terminal == exit # "running" \/ i = Len(outs)
 Emit == (Terminal /\ (cmd = "server" \/ exit # "running")) =>
           PrintT(<<"REPLAY", ToJson([kind |-> "loop", cmd |-> cmd, outs |-> outs, runs |-> i, exit |-> exit])>>)
 EmitTable == (i = 0 /\ cmd = "vrps" /\ outs = <<"ok">>) =>
-  \A refresh \in Times, minRefresh \in Times \cup {0}, expiry \in Times \cup {0} :
+  \A refresh \in Times, minRefresh \in Times \cup {0}, expiry \in Times \cup {0, Past} :
      /\ PrintT(<<"REPLAY", ToJson([kind |-> "wait", refresh |-> refresh, min |-> minRefresh, expiry |-> expiry, prev |-> -1,
                                    wait |-> RefreshWait(refresh, minRefresh, expiry)])>>)
      \* the same after an earlier run with the same payload whose data set expired at another time
